@@ -262,6 +262,36 @@ func (c *Ctx) ruleNoSyntacticType() {
 		})
 	}
 	c.floor("ExtractReceiverType call sites", n, 1)
+	// no checker turns a type expression into text (a cache or lookup keyed by types.ExprString(expr) identifies
+	// types by their spelling: the same text denotes different types under different imports, different texts the
+	// same type)
+	nText := 0
+	for _, fn := range P.ModFuncs {
+		pk := funcPkgPath(fn)
+		isChecker := false
+		for _, p := range []string{"immutable", "constructor", "testonly", "packageonly", "implements", "indexing"} {
+			if pk == modulePath+"/src/"+p {
+				isChecker = true
+			}
+		}
+		if !isChecker {
+			continue
+		}
+		allInstrs(fn, func(b *ssa.BasicBlock, ins ssa.Instruction) {
+			call, ok := ins.(*ssa.Call)
+			if !ok {
+				return
+			}
+			switch P.calleeName(call.Common()) {
+			case "go/types.ExprString", "go/types.WriteExpr", "go/printer.Fprint", "(*go/printer.Config).Fprint", "go/format.Node":
+				nText++
+				c.fail("NO-SYNTACTIC-TYPE", FuncName(fn)+"#expr-text", P.Pos(call.Pos()), "a checker renders a syntax expression as text ("+P.calleeName(call.Common())+"): what it then looks up or remembers under that text is identified by spelling, not by the type the expression denotes")
+			}
+		})
+	}
+	if nText == 0 {
+		c.ok("NO-SYNTACTIC-TYPE", "checkers#expr-text", "", "no checker renders a syntax expression as text")
+	}
 	// ... and only as a fallback: the receiver type under which a method annotation is indexed (and under which the
 	// enclosing method is looked up) is the defined type the method belongs to, taken from the method's object -
 	// `func (a *A) M()` with `type A = T` is a method of T, and T is what call sites look up
